@@ -741,7 +741,9 @@ func runDisputeHistory(t *testing.T, seed int64) (string, map[string]int, string
 	fromBond := proposer == 1 && (bondOrigins || r.Intn(2) == 0)
 	first := full
 	if r.Intn(3) == 0 {
-		first = pick(r, bquo(full, bi(int64(2+r.Intn(3)))), bquo(bmul(full, bi(96)), bi(100)), bsub(full, bi(1)), bquo(bmul(full, bi(95)), bi(100)))
+		// (full-7 / full-13 / a third: the other payer's part is then not a multiple of 20 and its 95 % refund has a fraction)
+		first = pick(r, bquo(full, bi(int64(2+r.Intn(3)))), bquo(bmul(full, bi(96)), bi(100)), bsub(full, bi(1)), bquo(bmul(full, bi(95)), bi(100)),
+			bsub(full, bi(7)), bsub(full, bi(13)), bquo(full, bi(3)))
 	}
 	rounds := pick(r, 1, 1, 2, 3)
 	if v := os.Getenv("HIST_ROUNDS"); v != "" {
@@ -815,7 +817,10 @@ func runDisputeHistory(t *testing.T, seed int64) (string, map[string]int, string
 					})
 				}
 				if first.Cmp(full) < 0 && (mixedPay || r.Intn(4) != 0) {
-					payer := pick(r, proposer, nVals+3)
+					payer := pick(r, proposer, nVals+3, nVals+3)
+					if payer == proposer && proposer != 1 {
+						payer = 1 // two different payers
+					}
 					if mixedPay {
 						payer = 1
 					}
